@@ -56,4 +56,9 @@ CLAIMS["C18"] = {
     "text": "Decides: plan id and first-seen time are rewritten only when the stored id is absent or differs and are committed together, the equal path returns the stored time; the attempt counter is consulted only/always when the per-app fold yields Some (exact fold table), reported as stored+1, removed on success, stored+1 on failure; finish time and the system app's target version (looked up under get_system_app_id) are stored and committed before reboot_needed/Needed and never after an installation error; the waited-for-reboot report is guarded by a flag set only under stored finish time and target version == running version, cleared with both keys removed+committed only/always on a successful report; the start instant is taken once; the duration arithmetic is checked.",
     "note": "Durability after commit is the Storage contract. Numeric correctness of the reported durations is not decided.",
 }
+CLAIMS["C11"] = {
+    "technique": "responder typestate on the interprocedural CFG (must-pass-through of send refined by enum-variant must-facts), select!-arm to future-origin map, outcome-edge dominance for reply constants, guard dominance for the OnDemand upgrade, fused-future re-arm typestate",
+    "text": "Decides on every non-cancelled CFG path of the long-running task: from the control arm of each select! every path to the next select (or task end) passes exactly one responder.send on the request's own sender; Started only behind a positive decision, Throttled only behind a negative one, AlreadyRunning only from the selects that run beside a check or the reboot wait; check options come from the request; options.source is upgraded to OnDemand (and reboot_allowed re-asked) only under new_options.source == OnDemand; the handle converts both channel failures to StateMachineGone without looping; every select! keeps a live non-control arm (fresh or re-armed).",
+    "note": "futures::channel and select! internals are trusted; reply logic is sequential code of one task, so schedules are not enumerated. Cancellation (dropping the task at a suspension point) is not a lost reply.",
+}
 NOT_APPLICABLE = {}
